@@ -70,8 +70,10 @@ fn main() {
                 let (sig, _) = sig_of(name).unwrap_or_else(|| panic!("unknown op {}", name));
                 let n = if sig.is_empty() { 1 } else { per };
                 for _ in 0..n {
-                    let a = if malformed > 0 && r.below(100) < malformed { gen::gen_args_malformed(name, sig, &mut r) } else { gen::gen_args(name, sig, &mut r) };
-                    writeln!(out, "{}", line(name, &a)).unwrap();
+                    // lines of the malformed stream (arguments outside every property's domain) are marked with a leading `!`
+                    let mal = malformed > 0 && r.below(100) < malformed;
+                    let a = if mal { gen::gen_args_malformed(name, sig, &mut r) } else { gen::gen_args(name, sig, &mut r) };
+                    writeln!(out, "{}{}", if mal { "!" } else { "" }, line(name, &a)).unwrap();
                 }
             }
             for _ in 0..hist {
